@@ -27,6 +27,7 @@ type TRule struct {
 	Atom mgjson.Atom `json:"atom"`
 	Ann  []any       `json:"ann"`
 	Lit2 *TLit       `json:"lit2,omitempty"`
+	Let  []any       `json:"let,omitempty"` // optional let-transform [variable, term]
 }
 
 // TLit is the optional second body literal of a temporal rule.
@@ -137,6 +138,9 @@ func tprogramText(c TCase, ruleOrder []int, factOrder []int) string {
 		lit := tlitText(r.Op, r.W, r.Atom, r.Ann)
 		if r.Lit2 != nil {
 			lit += ", " + tlitText(r.Lit2.Op, r.Lit2.W, r.Lit2.Atom, r.Lit2.Ann)
+		}
+		if len(r.Let) == 2 {
+			lit += " |> let " + r.Let[0].(string) + " = " + mgjson.TermText(r.Let[1])
 		}
 		fmt.Fprintf(&sb, "%s%s :- %s.\n", mgjson.AtomText(r.H), annText(r.Ht), lit)
 	}
